@@ -996,6 +996,60 @@ public:
                         });
                   }
                });
+            // a signed, non-constant operand converted to an unsigned 64-bit type inside + or - (a negative value wraps)
+            J.attributeArray("s2u", [&] {
+                  struct S2U : RecursiveASTVisitor<S2U>
+                  {
+                     std::vector<std::pair<const BinaryOperator *, const Expr *> > found;
+                     bool VisitBinaryOperator(BinaryOperator *B)
+                     {
+                        if (B->getOpcode() == BO_Add || B->getOpcode() == BO_Sub)
+                        {
+                           for (const Expr *O : { B->getLHS(), B->getRHS() })
+                           {
+                              const Expr *E = O->IgnoreParens();
+                              if (auto *IC = dyn_cast<ImplicitCastExpr>(E))
+                              {
+                                 if (IC->getCastKind() == CK_IntegralCast)
+                                 {
+                                    found.push_back({ B, IC });
+                                 }
+                              }
+                           }
+                        }
+                        return(true);
+                     }
+                  } sv;
+                  sv.TraverseStmt(const_cast<Stmt *>(Body));
+                  for (auto &pr : sv.found)
+                  {
+                     auto *IC = cast<ImplicitCastExpr>(pr.second);
+                     QualType to = IC->getType(), from = IC->getSubExpr()->getType();
+                     if (to->isDependentType() || from->isDependentType() || !to->isUnsignedIntegerType() || !from->isSignedIntegerType())
+                     {
+                        continue;
+                     }
+                     if (Ctx.getTypeSize(to) < 64 || from->isBooleanType())
+                     {
+                        continue;
+                     }
+                     Expr::EvalResult R;
+                     if (!IC->getSubExpr()->isValueDependent() && IC->getSubExpr()->EvaluateAsInt(R, Ctx))
+                     {
+                        continue;                  // a constant
+                     }
+                     const Stmt *sub = strip(IC->getSubExpr());
+                     J.object([&] {
+                           J.attribute("l", (int64_t)lineOf(pr.first->getBeginLoc()));
+                           J.attribute("op", pr.first->getOpcodeStr().str());
+                           J.attribute("from", typeStr(from));
+                           if (auto *DR = dyn_cast<DeclRefExpr>(sub))
+                           {
+                              J.attribute("v", DR->getDecl()->getNameAsString());
+                           }
+                        });
+                  }
+               });
             J.attribute("entry", (int64_t)G->getEntry().getBlockID());
             J.attribute("exit", (int64_t)G->getExit().getBlockID());
             J.attributeArray("blocks", [&] {
